@@ -292,9 +292,231 @@ def random_case(rng: random.Random, n: int):
     return _c(f"rnd{n}", "\n".join(lines))
 
 
+# ---------------------------------------------------------------------------
+# second generator: typed expression grammar over many kinds of terminals (added after several
+# seeded changes were missed only because the corpus lacked that KIND of input)
+
+def random_case2(rng: random.Random, n: int):
+    cell = rng.choice(["interval", "triangle", "triangle", "quadrilateral", "tetrahedron", "tetrahedron", "hexahedron"])
+    tdim = TDIM[cell]
+    simplex = cell in SIMPLEX
+    gdim = tdim
+    lines = [f'm=mesh("{cell}")']
+    # argument space
+    kind = rng.choice(["scal", "scal", "vec", "piola", "mixed"]) if cell in VEC_FAMILIES else rng.choice(["scal", "scal", "vec"])
+    fam, deg = rng.choice([f for f in FAMILIES[cell] if f[1] >= 1])
+    itype = rng.choice(["dx", "dx", "dx", "ds", "ds", "dS", "dS", "dP"])
+    if itype == "dS":
+        fam = {"P": "DP", "Q": "DQ"}.get(fam, fam)
+    if itype == "dP" and fam.startswith("D"):
+        fam = fam[1:]
+    if kind == "scal":
+        lines.append(f'V=space(m,"{fam}",{deg})')
+    elif kind == "vec":
+        lines.append(f'V=space(m,"{fam}",{deg},shape=({gdim},))')
+    elif kind == "piola":
+        pf, pd = rng.choice(VEC_FAMILIES[cell])
+        pd = rng.choice([pd, pd + 1]) if pf != "BDM" else pd
+        lines.append(f'V=space(m,"{pf}",{pd})')
+        if itype == "dP":
+            itype = "dx"
+    else:
+        lines.append(f'V=FunctionSpace(m,basix.ufl.mixed_element([el("{fam}","{cell}",{deg},shape=({gdim},)), el("{fam}","{cell}",{max(deg-1,1) if not fam.startswith("D") else deg})]))')
+    vecarg = kind in ("vec", "piola")
+    arity = rng.choice([0, 1, 1, 2, 2])
+    if kind == "mixed":
+        if arity == 2:
+            lines.append("(u,p)=TrialFunctions(V); (v,q)=TestFunctions(V)")
+        elif arity == 1:
+            lines.append("(v,q)=TestFunctions(V)")
+    else:
+        if arity == 2:
+            lines.append("u,v=TrialFunction(V),TestFunction(V)")
+        elif arity == 1:
+            lines.append("v=TestFunction(V)")
+    # coefficients of several kinds
+    cf = []      # (name, kind)
+    ncoef = rng.choice([1, 1, 2, 3]) if arity < 2 else rng.choice([0, 1, 1, 2])
+    for i in range(ncoef):
+        r = rng.random()
+        cfam, cdg = rng.choice(FAMILIES[cell])
+        if itype == "dP" and cfam.startswith("D"):
+            cfam = cfam[1:] if cdg > 0 else "P"
+            cdg = max(cdg, 1)
+        if r < 0.55:
+            lines.append(f'f{i}=Coefficient(space(m,"{cfam}",{cdg}))')
+            cf.append((f"f{i}", "scal", cdg))
+        elif r < 0.8 and cdg >= 1:
+            lines.append(f'f{i}=Coefficient(space(m,"{cfam}",{cdg},shape=({gdim},)))')
+            cf.append((f"f{i}", "vec", cdg))
+        elif cell in VEC_FAMILIES and itype != "dP":
+            pf, pd = rng.choice(VEC_FAMILIES[cell])
+            lines.append(f'f{i}=Coefficient(space(m,"{pf}",{pd}))')
+            cf.append((f"f{i}", "vec", pd))
+        else:
+            lines.append(f'f{i}=Coefficient(space(m,"{cfam}",{cdg}))')
+            cf.append((f"f{i}", "scal", cdg))
+    consts = []
+    if rng.random() < 0.4:
+        lines.append("k0=Constant(m)")
+        consts.append(("k0", "scal"))
+    if rng.random() < 0.2:
+        lines.append(f"k1=Constant(m,shape=({gdim},))")
+        consts.append(("k1", "vec"))
+    if rng.random() < 0.15:
+        lines.append(f"k2=Constant(m,shape=({gdim},{gdim}))")
+        consts.append(("k2", "ten"))
+    lines.append("x=SpatialCoordinate(m); n=FacetNormal(m)")
+    facet = itype in ("ds", "dS")
+
+    def side(e, allow_avg=True):
+        """restrict a cell-wise quantity on interior facets."""
+        if itype != "dS" or not any(ch.isalpha() for ch in e):
+            return e
+        r = rng.random()
+        if allow_avg and r < 0.3:
+            return f"avg({e})"
+        return f"({e})('{'+' if r < 0.65 else '-'}')"
+
+    def comp():
+        return rng.randrange(gdim)
+
+    def scal_atom(depth=0):
+        """a scalar cell-wise quantity (unrestricted)."""
+        choices = ["lit", "x"]
+        if cf:
+            choices += ["coef"] * 4
+        if consts:
+            choices += ["const"]
+        if simplex:
+            choices += ["geo"]
+        c = rng.choice(choices)
+        if c == "lit":
+            return rng.choice(["0.5", "2.0", "1.25", "(-0.75)"])
+        if c == "x":
+            return f"x[{comp()}]"
+        if c == "const":
+            nm, kd = rng.choice(consts)
+            return nm if kd == "scal" else (f"{nm}[{comp()}]" if kd == "vec" else f"{nm}[{comp()},{comp()}]")
+        if c == "geo":
+            g = ["CellVolume(m)", "Circumradius(m)", "CellDiameter(m)", "MinCellEdgeLength(m)"]
+            if facet and tdim > 1:
+                g += ["FacetArea(m)"]
+            return rng.choice(g)
+        nm, kd, dg = rng.choice(cf)
+        r = rng.random()
+        if kd == "scal":
+            if r < 0.6 or dg == 0:
+                return nm
+            if r < 0.85:
+                return f"{nm}.dx({comp()})"
+            return f"grad(grad({nm}))[{comp()},{comp()}]" if dg >= 2 and simplex and not facet else f"grad({nm})[{comp()}]"
+        if r < 0.5:
+            return f"{nm}[{comp()}]"
+        if r < 0.75:
+            return f"grad({nm})[{comp()},{comp()}]"
+        if r < 0.9:
+            return f"div({nm})"
+        return f"curl({nm})" if tdim == 2 else f"curl({nm})[{comp()}]"
+
+    def scal_expr(depth=0):
+        r = rng.random()
+        if depth >= 2 or r < 0.35:
+            return scal_atom(depth)
+        a = scal_expr(depth + 1)
+        if r < 0.5:
+            return f"({a}*{scal_expr(depth + 1)})"
+        if r < 0.6:
+            return f"({a}+{scal_expr(depth + 1)})"
+        if r < 0.65:
+            return f"({a}-{scal_expr(depth + 1)})"
+        if r < 0.72:
+            return rng.choice(["sqrt(abs({0})+1.0)", "exp(0.25*{0})", "sin({0})", "cos({0})", "ln({0}*{0}+1.5)", "tanh({0})", "atan({0})", "abs({0})", "erf({0})"]).format(a)
+        if r < 0.78:
+            return f"({a})**{rng.choice(['2', '3', '1.5' if False else '2'])}"
+        if r < 0.84:
+            b = scal_expr(depth + 1)
+            cond = rng.choice([f"gt({a},{b})", f"lt({a},0.25)", f"And(ge({a},{b}),lt({b},1.0))", f"Or(le({a},0.0),gt({b},0.5))", f"Not(lt({a},{b}))", f"ne({a},0.5)"])
+            return f"conditional({cond},{a},{b})"
+        if r < 0.9:
+            return rng.choice(["max_value({0},{1})", "min_value({0},{1})", "atan2({0},{1}*{1}+1.0)"]).format(a, scal_expr(depth + 1))
+        if r < 0.95:
+            return f"({a}/({scal_expr(depth + 1)}**2+1.25))"
+        return f"(-{a})"
+
+    def arg_factor(name, other=None):
+        """scalar-valued expression linear in argument `name` (already restricted for dS)."""
+        r = rng.random()
+        if kind == "mixed":
+            sub = rng.choice([name, {"u": "p", "v": "q"}[name]])
+            if sub in ("p", "q"):
+                e = sub if r < 0.6 else f"{sub}.dx({comp()})"
+            else:
+                e = rng.choice([f"{sub}[{comp()}]", f"div({sub})", f"grad({sub})[{comp()},{comp()}]"])
+        elif vecarg:
+            opts = [f"{name}[{comp()}]", f"{name}[{comp()}]"]
+            if kind == "vec":
+                opts += [f"div({name})", f"grad({name})[{comp()},{comp()}]"]
+            else:
+                opts += [f"grad({name})[{comp()},{comp()}]", (f"curl({name})" if tdim == 2 else f"curl({name})[{comp()}]"), f"div({name})"]
+            if facet:
+                opts.append(f"dot({name},n)")
+            e = rng.choice(opts)
+        else:
+            opts = [name, name, f"{name}.dx({comp()})"]
+            if facet:
+                opts.append(f"dot(grad({name}),n)")
+            if deg >= 2 and simplex and itype == "dx":
+                opts.append(f"grad(grad({name}))[{comp()},{comp()}]")
+            e = rng.choice(opts)
+        if itype == "dS":
+            rr = rng.random()
+            if rr < 0.3:
+                return f"jump({e})" if "n)" not in e else f"({e})('+')"
+            if rr < 0.45:
+                return f"avg({e})"
+            return f"({e})('{'+' if rr < 0.75 else '-'}')"
+        return e
+
+    terms = []
+    for t in range(rng.choice([1, 1, 2, 3])):
+        sf = side(scal_expr(), allow_avg=True)
+        if facet and rng.random() < 0.3:
+            nn = f"n[{comp()}]" if itype == "ds" else f"n('{rng.choice('+-')}')[{comp()}]"
+            sf = f"{nn}*{sf}"
+        if arity == 2:
+            body = f"{arg_factor('u')}*{arg_factor('v')}"
+        elif arity == 1:
+            body = arg_factor("v")
+        else:
+            body = side(scal_expr(), allow_avg=False)
+        r = rng.random()
+        md = []
+        if r < 0.25:
+            md.append(f"degree={rng.choice([0, 1, 2, 3, 5])}")
+        elif r < 0.32:
+            md.append('scheme="vertex", degree=1')
+        if rng.random() < 0.25:
+            md.insert(0, str(rng.choice([1, 2, 5])))
+        mds = f"({', '.join(md)})" if md else ""
+        if itype == "dP":
+            # vertex integrals: no facet quantities, continuous data only
+            terms.append(f"{sf}*{body}*dP{mds if 'degree' not in mds and 'scheme' not in mds else ''}")
+        else:
+            terms.append(f"{sf}*{body}*{itype}{mds}")
+    lines.append("objs=[" + " + ".join(terms) + "]")
+    r = rng.random()
+    if r < 0.1:
+        lines.append('options={"scalar_type":"float32"}')
+    return _c(f"rnx{n}", "\n".join(lines))
+
+
 def random_cases(seed: int, count: int):
     rng = random.Random(seed)
-    return [random_case(rng, i) for i in range(count)]
+    out = []
+    for i in range(count):
+        out.append(random_case(rng, i) if i % 2 == 0 else random_case2(rng, i))
+    return out
 
 
 UNSUPPORTED = [
